@@ -49,6 +49,8 @@ func checkC09(c *Ctx, e *Env) {
 			ruleSupplyCovered(c, m, r, "C09.COVER")
 			importObligations(c, e, checkC18, "C18", "C09.PARAMSET", "fee parameters#stored-in-the-validated-shape", "the fee setters store nil for an absent or zero fee and the request's coin otherwise — the two shapes the state validators accept; any other stored shape (a zero coin without denomination) is exported and then rejected by genesis validation", func(o *Oblig) bool { return o.Rule == "C18.SET" })
 			ruleGenesisPrecision(c, m, r, "x/ecocredit/v3/genesis")
+			importObligations(c, e, checkC01, "C01", "C09.INVARIANT", "registered invariants#batch-supply", "'with all module invariants holding' after the re-import: the registered batch-supply invariant computes the conservation relation over the right key kinds and never fails in a conserving state (wiring of the registered closure included)", func(o *Oblig) bool { return o.Rule == "C01.INV" })
+			importObligations(c, e, checkC05, "C05", "C09.INVARIANT", "registered invariants#basket-supply", "'with all module invariants holding' after the re-import: the registered basket-supply invariant compares each basket's token supply with its own credits under the scale the handlers mint with", func(o *Oblig) bool { return o.Rule == "C05.INV" || o.Rule == "C05.SCALE" })
 		}
 		genPkg := "x/ecocredit/v3/genesis"
 		if mod == "x/data" {
